@@ -17,26 +17,48 @@ def rect_neighbours(nx, ny, S):
     return sorted(out)
 
 
-def random_surfaces(rng, ncols, dz, top=0.0):
-    """surface elevations: above the top, exactly the top, inside a layer, exactly on a layer
-    boundary, just above / below a boundary, below the bottom"""
+def tops_for(dz):
+    """model-top elevations that put the elevation 0.0 (falsy in Python) in every position relative
+    to the layers: the top itself, inside the first layer, exactly on the first layer boundary,
+    exactly the bottom of the model, above the top, below the bottom"""
+    d = float(sum(dz))
+    return [0.0, dz[0] / 2.0, float(dz[0]), d, -40.0, d + 50.0, 300.0]
+
+
+def random_surfaces(rng, ncols, dz, top=0.0, p_default=0.05):
+    """surface elevations: exactly 0.0, above the top, exactly the top, inside a layer, exactly on a
+    layer boundary, exactly the bottom of the model, 2^-20 above / below a boundary, below the bottom"""
     bots = []; z = top
     for t in dz: z -= t; bots.append(z)
     out = []
     for i in range(ncols):
         k = rng.random()
-        if k < 0.15: s = top + rng.choice([0.5, 7.25, 100.0])
-        elif k < 0.3: s = top
-        elif k < 0.6:
+        if k < 0.14: s = 0.0
+        elif k < 0.26: s = top + rng.choice([0.5, 7.25, 100.0])
+        elif k < 0.36: s = top
+        elif k < 0.58:
             j = rng.randrange(len(dz)); hi = top if j == 0 else bots[j - 1]
             s = bots[j] + (hi - bots[j]) * rng.choice([0.25, 0.5, 0.8125])
-        elif k < 0.8: s = rng.choice(bots[:-1]) if len(bots) > 1 else top
-        elif k < 0.9:
+        elif k < 0.74: s = rng.choice(bots[:-1]) if len(bots) > 1 else top
+        elif k < 0.80: s = bots[-1]
+        elif k < 0.88:
             j = rng.randrange(len(dz)); s = bots[j] + rng.choice([-1, 1]) * 2.0 ** -20
-        elif k < 0.95: s = bots[-1] - 1.0
+        elif k < 1.0 - p_default: s = bots[-1] - rng.choice([1.0, 2.0 ** -20, 250.0])
         else: continue
         out.append([i, s])
     return out
+
+
+def special_surfaces(rng, ncols, dz, top, first=None):
+    """as random_surfaces, every column gets one; column 0 (the column operated on in the
+    single-column meshes) cycles through the falsy / boundary values when `first` is given"""
+    out = {i: s for i, s in random_surfaces(rng, ncols, dz, top, p_default=0.0)}
+    if first is not None:
+        bots = []; z = top
+        for t in dz: z -= t; bots.append(z)
+        special = [0.0, top, bots[0], bots[-1], top + 7.25, bots[-1] - 1.0, (top + bots[0]) / 2.0, -0.0]
+        out[0] = special[first % len(special)]
+    return [[i, out[i]] for i in sorted(out)]
 
 
 MODES = [False, 'x', 'y', True]
@@ -52,8 +74,9 @@ def exhaustive_small(rng, meshes):
             for mode in MODES:
                 atm = rng.choice([0, 1, 2])
                 dz = rng.choice([[10.], [5., 10.], [2., 3., 4.]])
-                m = rect(dx, dy, dz, atmos=atm)
-                surf = random_surfaces(rng, n, dz) if rng.random() < 0.5 else None
+                top = rng.choice(tops_for(dz))
+                m = rect(dx, dy, dz, atmos=atm, origin=[0., 0., top])
+                surf = random_surfaces(rng, n, dz, top) if rng.random() < 0.5 else None
                 base = {'mesh': m, 'surfaces': surf, 'seed': rng.randrange(1 << 30), 'lattice': 7 if n <= 6 else 0}
                 cases.append(dict(base, op={'name': 'refine', 'columns': S, 'bisect': mode, 'edge': []}))
                 if nb and (n <= 6 or rng.random() < 0.34):
@@ -95,7 +118,7 @@ def random_rect(rng, count):
         dx = [rng.choice([10., 25., 40., 100., 12.5]) for _ in range(nx)]
         dy = [rng.choice([10., 25., 40., 100., 7.5]) for _ in range(ny)]
         dz = [rng.choice([5., 10., 20.]) for _ in range(rng.randint(1, 4))]
-        m = rect(dx, dy, dz, atmos=rng.choice([0, 1, 2]), origin=[rng.choice([0., 1000., -250.5]), rng.choice([0., 5e5]), rng.choice([0., 100.])])
+        m = rect(dx, dy, dz, atmos=rng.choice([0, 1, 2]), origin=[rng.choice([0., 1000., -250.5]), rng.choice([0., 5e5]), rng.choice(tops_for(dz))])
         if rng.random() < 0.5: m['rotate'] = rng.choice([30., 45., 12.5, 90., -60.])
         kind, S = region(rng, nx, ny)
         nb = rect_neighbours(nx, ny, S)
@@ -119,7 +142,9 @@ def twice_refined(rng, count):
         # the second selection indexes the column list after the first refinement (at most 4x + transition columns)
         nmax = 6 * nx * ny
         S2 = sorted(set(rng.randrange(nmax) for _ in range(rng.randint(1, 6))))
-        cases.append({'mesh': rect(dx, dy, dz, atmos=rng.choice([0, 1, 2])), 'surfaces': random_surfaces(rng, nx * ny, dz) if rng.random() < 0.5 else None,
+        top = rng.choice(tops_for(dz))
+        cases.append({'mesh': rect(dx, dy, dz, atmos=rng.choice([0, 1, 2]), origin=[0., 0., top]),
+                      'surfaces': random_surfaces(rng, nx * ny, dz, top) if rng.random() < 0.5 else None,
                       'pre': [pre], 'seed': rng.randrange(1 << 30), 'shape': 'second-' + kind,
                       'op': {'name': 'refine', 'columns': S2, 'wrap': True, 'bisect': rng.choice(MODES), 'edge': []}})
     return cases
@@ -145,7 +170,7 @@ def outward_apex(p, q, h):
     return (mx + h * dy / L, my - h * dx / L)      # right of the direction p->q = outside of a CCW polygon
 
 
-def gadget(corners, sides, dz=(10., 5.), h=None, rotate_nodes=0):
+def gadget(corners, sides, dz=(10., 5.), h=None, rotate_nodes=0, top=0.0):
     """column 0 = the polygon `corners` (CCW); one outer triangle on each side in `sides`;
     refining the outer triangles makes column 0 a transition column whose refined sides are
     exactly `sides`"""
@@ -158,7 +183,7 @@ def gadget(corners, sides, dz=(10., 5.), h=None, rotate_nodes=0):
         cols.append([(i + 1) % n, i, len(nodes) - 1])
     if rotate_nodes:
         cols[0] = cols[0][rotate_nodes:] + cols[0][:rotate_nodes]
-    return {'kind': 'custom', 'nodes': [list(p) for p in nodes], 'columns': cols, 'dz': list(dz)}
+    return {'kind': 'custom', 'nodes': [list(p) for p in nodes], 'columns': cols, 'dz': list(dz), 'top': float(top)}
 
 
 def gadget_cases(rng, shapes):
@@ -166,10 +191,11 @@ def gadget_cases(rng, shapes):
     for nn in (3, 4):
         for r in range(1, nn + 1):
             for sides in itertools.combinations(range(nn), r):
-                for _ in range(shapes):
+                for k in range(shapes):
                     corners = convex_polygon(rng, nn)
-                    m = gadget(corners, sides)
-                    surf = [[j, rng.choice([-3.0, -12.5, 0.0, 4.0])] for j in range(len(m['columns']))]
+                    top = rng.choice(tops_for((10., 5.)))
+                    m = gadget(corners, sides, top=top)
+                    surf = special_surfaces(rng, len(m['columns']), m['dz'], top, first=rng.randrange(8))
                     cases.append({'mesh': m, 'surfaces': surf, 'seed': rng.randrange(1 << 30), 'gadget': {'nn': nn, 'sides': list(sides)},
                                   'npts': 12, 'op': {'name': 'refine', 'columns': list(range(1, len(m['columns']))), 'bisect': False, 'edge': []}})
                 if r == nn:
@@ -199,7 +225,7 @@ def polygon_with_straight(rng, k, placement, rot):
     return pts, straight
 
 
-def decompose_mesh(pts, ring=True):
+def decompose_mesh(pts, ring=True, top=0.0):
     n = len(pts)
     nodes = list(pts); cols = [list(range(n))]
     if ring:
@@ -207,7 +233,7 @@ def decompose_mesh(pts, ring=True):
             p, q = pts[i], pts[(i + 1) % n]
             nodes.append(outward_apex(p, q, 0.2 * math.hypot(q[0] - p[0], q[1] - p[1])))
             cols.append([(i + 1) % n, i, len(nodes) - 1])
-    return {'kind': 'custom', 'nodes': [list(p) for p in nodes], 'columns': cols, 'dz': [10., 5.]}
+    return {'kind': 'custom', 'nodes': [list(p) for p in nodes], 'columns': cols, 'dz': [10., 5.], 'top': float(top)}
 
 
 def decompose_cases(rng, per_config, nmax=10):
@@ -227,11 +253,65 @@ def decompose_cases(rng, per_config, nmax=10):
                 rots = list(range(n)) if per_config >= 2 else rng.sample(range(n), min(n, 3))
                 for rot in rots:
                     pts, straight = polygon_with_straight(rng, k, pl, rot)
-                    m = decompose_mesh(pts, ring=True)
-                    surf = [[j, rng.choice([-3.0, -12.5, 0.0, 4.0])] for j in range(len(m['columns']))]
+                    top = rng.choice(tops_for((10., 5.)))
+                    m = decompose_mesh(pts, ring=True, top=top)
+                    surf = special_surfaces(rng, len(m['columns']), m['dz'], top, first=len(cases))
                     cases.append({'mesh': m, 'surfaces': surf, 'seed': rng.randrange(1 << 30), 'npts': 10,
                                   'polygon': {'n': n, 'ns': ns, 'placement': list(pl), 'rot': rot, 'straight': straight},
                                   'op': {'name': 'decompose', 'columns': [0]}})
+    return cases
+
+
+def triangulate_cases(rng, shapes):
+    """triangulate_column on one column of a ring mesh: strictly convex 3..9-gons and polygons
+    with collinear extra nodes; the column's surface runs through the falsy / boundary values"""
+    cases = []
+    for n in range(3, 10):
+        for k in range(shapes):
+            ns = 0 if k % 3 else min(rng.randint(1, 2), n - 3)
+            base = n - ns
+            pl = [0] * base
+            for _ in range(ns): pl[rng.randrange(base)] += 1
+            pts, straight = polygon_with_straight(rng, base, pl, rng.randrange(n))
+            top = rng.choice(tops_for((10., 5.)))
+            m = decompose_mesh(pts, ring=True, top=top)
+            cases.append({'mesh': m, 'surfaces': special_surfaces(rng, len(m['columns']), m['dz'], top, first=len(cases)),
+                          'seed': rng.randrange(1 << 30), 'npts': 10, 'polygon': {'n': n, 'ns': ns, 'straight': straight},
+                          'op': {'name': 'triangulate', 'columns': [0]}})
+    return cases
+
+
+def surface_cases(rng, reps=1):
+    """every operation on a small mesh, the surface of the column operated on (and of its
+    neighbours) running through: exactly 0.0 (with the model top at seven different elevations),
+    -0.0, exactly the top, exactly each layer boundary, exactly the bottom, above the top, below
+    the bottom.  This is where a test such as `if col.surface:` / `col.surface or default` /
+    `surface <= bottom` shows."""
+    cases = []
+    dz = [10., 5., 20.]
+    for top in tops_for(dz):
+        bots = [top - 10., top - 15., top - 35.]
+        for s in [0.0, -0.0, top, bots[0], bots[1], bots[2], top + 7.25, bots[2] - 1.0]:
+            for rep in range(reps):
+                others = [0.0, s, top, rng.choice(bots), top - 12.5]
+                def surf(n, main): return [[i, s if i in main else others[(i + rep) % len(others)]] for i in range(n)]
+                seed = rng.randrange(1 << 30)
+                m = rect([10., 20., 15.], [10., 30.], dz, atmos=rng.choice([0, 1, 2]), origin=[0., 0., top])
+                cases.append({'mesh': m, 'surfaces': surf(6, {1}), 'seed': seed, 'lattice': 5, 'shape': 'surface-sweep',
+                              'op': {'name': 'refine', 'columns': [1], 'bisect': rng.choice(MODES), 'edge': []}})
+                cases.append({'mesh': m, 'surfaces': surf(6, {0, 4}), 'seed': seed, 'lattice': 5, 'shape': 'surface-sweep',
+                              'op': {'name': 'refine', 'columns': [0, 1, 4], 'bisect': False, 'edge': []}})
+                cases.append({'mesh': m, 'surfaces': surf(6, {2}), 'seed': seed, 'lattice': 5, 'shape': 'surface-sweep',
+                              'op': {'name': 'split', 'column': 2, 'node': rng.randrange(4)}})
+                cases.append({'mesh': m, 'surfaces': surf(6, {0, 3, 5}), 'seed': seed, 'shape': 'surface-sweep',
+                              'op': {'name': 'refine_layers', 'layers': rng.choice([[], [1], [2, 3], [3]]), 'factor': rng.choice([2, 3])}})
+                for n, pl in ((5, [1, 0, 0, 0]), (6, [1, 0, 1, 0]), (6, [1, 1, 0, 0]), (7, [1, 1, 1, 0]), (8, [1, 1, 1, 1]), (5, [0] * 5), (9, [0] * 9)):
+                    pts, straight = polygon_with_straight(rng, len(pl), pl, rng.randrange(n))
+                    pm = decompose_mesh(pts, ring=True, top=top); pm['dz'] = dz
+                    k = len(pm['columns'])
+                    cases.append({'mesh': pm, 'surfaces': surf(k, {0}), 'seed': seed, 'npts': 6, 'shape': 'surface-sweep',
+                                  'polygon': {'n': n, 'ns': sum(pl), 'placement': pl, 'straight': straight},
+                                  'op': {'name': rng.choice(['decompose', 'decompose', 'triangulate']), 'columns': [0]}})
     return cases
 
 
@@ -241,14 +321,21 @@ def split_cases(rng, count):
         nx, ny = rng.randint(1, 3), rng.randint(1, 3)
         dx = [rng.choice([10., 20., 40.]) for _ in range(nx)]; dy = [rng.choice([10., 30.]) for _ in range(ny)]
         dz = [5., 10.]
-        m = rect(dx, dy, dz, atmos=rng.choice([0, 1, 2]))
+        top = rng.choice(tops_for(dz))
+        m = rect(dx, dy, dz, atmos=rng.choice([0, 1, 2]), origin=[0., 0., top])
         if rng.random() < 0.4: m['rotate'] = rng.choice([30., 45., -60.])
-        cases.append({'mesh': m, 'surfaces': random_surfaces(rng, nx * ny, dz) if rng.random() < 0.6 else None, 'seed': rng.randrange(1 << 30),
-                      'lattice': 6, 'op': {'name': 'split', 'column': rng.randrange(nx * ny), 'node': rng.choice([0, 1, 2, 3, 3, 2, 1, 0, -1])}})
+        col = rng.randrange(nx * ny)
+        surf = random_surfaces(rng, nx * ny, dz, top) if rng.random() < 0.7 else None
+        if surf is not None and rng.random() < 0.5:
+            # the column that is split gets a falsy / boundary elevation
+            surf = [x for x in surf if x[0] != col] + [[col, rng.choice([0.0, top, top - dz[0], top - sum(dz), top + 7.25, top - sum(dz) - 1.0])]]
+        cases.append({'mesh': m, 'surfaces': surf, 'seed': rng.randrange(1 << 30),
+                      'lattice': 6, 'op': {'name': 'split', 'column': col, 'node': rng.choice([0, 1, 2, 3, 3, 2, 1, 0, -1])}})
     for _ in range(max(2, count // 5)):
         corners = convex_polygon(rng, 4)
-        m = gadget(corners, [0, 1, 2, 3])
-        cases.append({'mesh': m, 'surfaces': [[0, -2.0]], 'seed': rng.randrange(1 << 30), 'lattice': 0,
+        top = rng.choice(tops_for((10., 5.)))
+        m = gadget(corners, [0, 1, 2, 3], top=top)
+        cases.append({'mesh': m, 'surfaces': special_surfaces(rng, len(m['columns']), m['dz'], top, first=len(cases)), 'seed': rng.randrange(1 << 30), 'lattice': 0,
                       'op': {'name': 'split', 'column': 0, 'node': rng.randrange(4)}})
     return cases
 
@@ -263,7 +350,7 @@ def layer_cases(rng, thorough):
                 for factor in (2, 3, 4):
                     for atm in (0, 1, 2):
                         if not thorough and rng.random() < 0.5: continue
-                        top = rng.choice([0., 100., -50.])
+                        top = rng.choice(tops_for(dz) + [100., -50.])
                         m = rect([10., 20., 30.], [10., 40.], dz, atmos=atm, origin=[0., 0., top])
                         cases.append({'mesh': m, 'surfaces': random_surfaces(rng, 6, dz, top), 'seed': rng.randrange(1 << 30),
                                       'op': {'name': 'refine_layers', 'layers': layers, 'factor': factor}})
